@@ -81,7 +81,7 @@ def check_cond(c, depth=0):
 
 
 def check_com(k, depth=0):
-    if not isinstance(k, list) or not k or not isinstance(k[0], str) or depth > 12:
+    if not isinstance(k, list) or not k or not isinstance(k[0], str) or depth > 60:
         raise CaseInvalid('com')
     t = k[0]
     if t == 'skip' and len(k) == 1:
